@@ -7,7 +7,7 @@ use serde_json::{Value, json};
 use std::sync::mpsc::{Receiver, Sender, channel};
 use std::sync::{Arc, Mutex};
 
-const RULE: &str = "N in {2,3} rewriter instances from a 22-entry menu (plain, selector-heavy, memory-limited, failing, meta-charset, large-buffer, case-variant selectors, documents ending inside svg/math, svg title + CDATA, per-type counters over many equally long custom element names), each a call sequence new, write*, end; EVERY interleaving of their calls (call-granularity scheduler: real OS threads that run only while they hold the baton) x thread assignments {one thread per instance, all on one thread, Send rewriter migrated to another thread after every call}, plus selector parsing on other threads in between; oracle: every instance's observation (sink log, events, results, accounted memory) equals its solo single-thread run; repetition gives identical observations; C API: a thread only ever sees and clears its own last error, in all interleavings of {error, take} on two threads; non-trivial = distinct (instances, interleaving, assignment) where both instances produced output";
+const RULE: &str = "N in {2,3} rewriter instances from a 25-entry menu (plain, selector-heavy, memory-limited, failing, meta-charset, large-buffer, case-variant selectors, documents ending inside svg/math, svg title + CDATA, per-type counters over many equally long custom element names), each a call sequence new, write*, end; EVERY interleaving of their calls (call-granularity scheduler: real OS threads that run only while they hold the baton) x thread assignments {one thread per instance, all on one thread, Send rewriter migrated to another thread after every call}, plus selector parsing on other threads in between; oracle: every instance's observation (sink log, events, results, accounted memory) equals its solo single-thread run; repetition gives identical observations; C API: a thread only ever sees and clears its own last error, in all interleavings of {error, take} on two threads; non-trivial = distinct (instances, interleaving, assignment) where both instances produced output";
 
 #[derive(Clone)]
 struct Inst {
@@ -51,6 +51,10 @@ fn menu() -> Vec<Inst> {
         Inst { name: "ends-inside-svg-g", p: leak(Cfg::with(all.clone()).strict(false)), chunks: ch(&["<p>figure</p><svg viewBox='0 0 1 1'><g><circle r=1>", "t"]) },
         Inst { name: "ends-inside-math-mrow", p: leak(Cfg::with(vec![obs("*")]).strict(false)), chunks: ch(&["<math><mrow><mi>x</mi>", "<mn>1"]) },
         Inst { name: "html-mi-after-foreign", p: leak(Cfg::with(all.clone()).strict(false)), chunks: ch(&["<p>x</mi><![CDATA[y]]><a/>", "z</mn><b/>"]) },
+        // the same non-ASCII attribute name looked up / set in documents of different encodings
+        Inst { name: "attr-lookup-utf8", p: leak(Cfg::with(vec![HSpec::with_ops(HKind::Element, "*", vec![Op::GetAttr("\u{416}".into()), Op::SetAttr("\u{416}".into(), "1".into()), Op::RemoveAttr("\u{44f}".into())])]).strict(false)), chunks: ch(&["<a \u{416}=x \u{44f}=y>", "<b>"]) },
+        Inst { name: "attr-lookup-1251", p: leak(Cfg::with(vec![HSpec::with_ops(HKind::Element, "*", vec![Op::GetAttr("\u{416}".into()), Op::SetAttr("\u{416}".into(), "1".into()), Op::RemoveAttr("\u{44f}".into())])]).strict(false).enc("windows-1251")), chunks: vec![vec![b'<', b'a', b' ', 0xC6, b'=', b'x', b' ', 0xFF, b'=', b'y', b'>'], b"<b>".to_vec()] },
+        Inst { name: "attr-lookup-1252", p: leak(Cfg::with(vec![HSpec::with_ops(HKind::Element, "*", vec![Op::GetAttr("\u{416}".into()), Op::SetAttr("\u{416}".into(), "1".into())])]).strict(false).enc("windows-1252")), chunks: ch(&["<a k=x>", "<b>"]) },
         Inst { name: "html-title-after-foreign", p: leak(Cfg::with(all.clone()).strict(false)), chunks: ch(&["<title>t</title><![CDATA[x]]><a/>y", "</desc><b/>z</foreignObject><i/>"]) },
         Inst { name: "math-ends-inside", p: leak(Cfg::with(vec![obs("*")]).strict(false)), chunks: ch(&["<math><mi>x</mi><annotation-xml encoding=\"text/html\"><p>", "y"]) },
         Inst {
